@@ -78,7 +78,8 @@ def parse_reports(log_prefix):
                 if mm and 'similarity' in mm.group(2):
                     fn, loc = mm.group(1), os.path.basename(mm.group(2))
                     break
-            access = 'READ' if re.search(r'\bREAD of size', b) else ('WRITE' if re.search(r'\bWRITE of size', b) else '?')
+            access = 'READ' if re.search(r'\bREAD of size|caused by a READ', b) else \
+                ('WRITE' if re.search(r'\bWRITE of size|caused by a WRITE', b) else '?')
             key = (kind, fn, access)
             r = reports.setdefault(key, {'kind': kind, 'function': fn, 'access': access, 'location': loc, 'count': 0,
                                          'text': b[:1500]})
